@@ -316,7 +316,7 @@ def run(modules, seed=0, n=12, repo=None):
             for case in tad_cases(rng, 2 * n):
                 for unit, cfg in py2lean.TAD_UNITS.items():
                     cls, meth = cfg["cls"], cfg["of"]
-                    if unit not in sigs:
+                    if unit not in sigs or "next_states" not in cfg["params"]:
                         continue
                     row = case["prob_row"] if cfg["params"]["next_states"] == py2lean.PROB_ROW else case["act_row"]
                     c2 = dict(case, next_states=row)
@@ -328,6 +328,37 @@ def run(modules, seed=0, n=12, repo=None):
                     vals = ["(fun x _ => x)" if p == "rnd" else lit(c2[p], cfg["params"][p]) for p in sigs[unit]]
                     add("CR.Ex.Tad", unit, cfg, vals,
                         lambda cls=cls, meth=meth, row=row, c2=c2, extra=extra: call_method(tad, cls, meth, row, c2, extra))
+            # StochasticGame.check_game on whole (typed) descriptions, well-formed and broken in one place
+            cfg = py2lean.TAD_UNITS.get("StochasticGame_check_game")
+            if cfg is not None and "StochasticGame_check_game" in sigs:
+                for _ in range(3 * n):
+                    k = rng.randint(1, 5)
+                    d = {"transition_list": [() for _ in range(k)], "num_states": k, "rewards": [dy(rng) for _ in range(k)],
+                         "final_states": [rng.randrange(k) for _ in range(rng.randint(1, 3))],
+                         "players": [rng.choice(["Player 1", "Player 2", "Probabilistic"]) for _ in range(k)]}
+                    how = rng.choice(["ok", "ok", "tl", "rw", "neg", "fin_hi", "fin_neg", "player", "player_last"])
+                    if how == "tl":
+                        d["transition_list"] = d["transition_list"][:-1]
+                    elif how == "rw":
+                        d["rewards"] = d["rewards"] + [1.0]
+                    elif how == "neg":
+                        d["rewards"][rng.randrange(k)] = -0.5
+                    elif how == "fin_hi":
+                        d["final_states"].append(k)
+                    elif how == "fin_neg":
+                        d["final_states"].insert(0, -1)
+                    elif how == "player":
+                        d["players"][0] = "Player 3"
+                    elif how == "player_last":
+                        d["players"][-1] = "player 1"
+                    vals = [lit(d[p], cfg["params"][p]) for p in sigs["StochasticGame_check_game"]]
+
+                    def run_check(d=d):
+                        sg = object.__new__(tad.StochasticGame)
+                        sg.transition_list, sg.num_states, sg.rewards = d["transition_list"], d["num_states"], d["rewards"]
+                        sg.final_states, sg.players = d["final_states"], d["players"]
+                        return sg.check_game() or ()
+                    add("CR.Ex.Tad", "StochasticGame_check_game", cfg, vals, run_check)
     out_lines = lines
     if not out_lines:
         return {"cases": 0, "skipped": skipped, "mismatches": [], "units": per_unit}
